@@ -1,6 +1,7 @@
 package main
 
 import (
+	"strings"
 	"fmt"
 
 	gmsl "github.com/matrix-org/gomatrixserverlib"
@@ -222,8 +223,27 @@ func runC09(c *mon.Ctx) {
 					cw = gen.Pick(sr, worlds)
 				}
 				ac, err := genAuthCase(sr, cw)
-				if err != nil || !sameRoom(ac.state) || !stateParses(cw, ac.state) {
+				if err != nil || !sameRoom(ac.state) {
 					continue
+				}
+				if sr.Chance(0.12) {
+					// join rules / power levels that are legitimate state but that the content decoders refuse: whatever the
+					// fresh check makes of them, the reused checker must make the same of them (and not keep the previous ones)
+					typ, content := "m.room.join_rules", gen.Pick(sr, []*ref.Value{ref.O("join_rule", ref.S("invite"), "allow", ref.S("x")), ref.O("join_rule", ref.I(5)), ref.O("join_rule", ref.S("public"), "allow", ref.I(1))})
+					if sr.Chance(0.5) {
+						typ, content = "m.room.power_levels", gen.Pick(sr, []*ref.Value{ref.O("ban", ref.S("50"), "users", ref.O(authUsers[0], ref.I(100))), ref.O("users", ref.A()), ref.O("events", ref.S("x")), ref.O("kick", ref.O())})
+					}
+					if odd, e := cw.build(typ, strp(""), authUsers[0], content, nil, ""); e == nil {
+						out := ac.state[:0:0]
+						for _, q := range ac.state {
+							if !(q.Type() == typ && q.StateKeyEquals("")) {
+								out = append(out, q)
+							}
+						}
+						ac.state = append(out, odd)
+						ac.kind += "+undecodable-" + typ[7:]
+						interesting = true
+					}
 				}
 				steps = append(steps, step{ac.state, ac.ev, ac.kind, cw})
 				if ac.kind == "restricted-join" {
@@ -290,6 +310,18 @@ func runC09(c *mon.Ctx) {
 						return
 					}
 					c.Count("reuse_evaluations")
+					// the cleared and refilled provider itself, handed to the public entry point
+					if viaProvider, pan := func() (string, string) {
+						var v string
+						site, msg, p := mon.Guard(func() { v = verdictStr(gmsl.Allowed(st.ev, prov, userIDForSender)) })
+						if p {
+							return "", site + ": " + msg
+						}
+						return v, ""
+					}(); pan == "" && viaProvider != fresh {
+						c.Failf("reuse:cleared-provider-verdict-differs:"+fresh+"-on-a-fresh-provider", "v%s: step %d (%s) is %s with a fresh provider but %s with a provider that was cleared and refilled\nsequence: %v\nevent: %s\nstate: %v", ver, i, st.kind, fresh, viaProvider, hist, st.ev.JSON(), describeState(st.state))
+						return
+					}
 					if reused != fresh {
 						prevKind := ""
 						if i > 0 {
@@ -313,6 +345,9 @@ func runC09(c *mon.Ctx) {
 
 // reuseSig names the shape of a reuse divergence.
 func reuseSig(kind, prevKind, fresh string, state []gmsl.PDU) string {
+	if i := strings.Index(kind, "+undecodable-"); i >= 0 {
+		return "reuse:verdict-differs:with-" + kind[i+1:] + ":" + fresh + "-on-its-own"
+	}
 	hasCreate := false
 	for _, p := range state {
 		if p.Type() == "m.room.create" {
